@@ -233,3 +233,24 @@ Theorem C06_example_history_invariant :
 Proof. exact hx_history_invariant. Qed.
 Print Assumptions C06_example_history_invariant.
 
+
+(* ---- the invariant over histories of EVERY operation of the API, the multi-transaction composites included ---- *)
+From Clover Require Import CompositeSpec CompositeProofs.
+Theorem C06_step_preserves_all_operations : forall db h o,
+  wf_db db -> Rdb' db h -> (closed h = false -> op_dom_all db o) ->
+  exists db', wf_db db' /\ Rdb' db' (snd (step h o)).
+Proof. exact step_preserves_refinement_all. Qed.
+Print Assumptions C06_step_preserves_all_operations.
+
+Theorem C06_invariant_all_operations : forall ops, hist_dom_all empty_db ops ->
+  exists db, wf_db db /\ R db (durable (snd (run_ops empty_db ops))).
+Proof. exact history_invariant_all. Qed.
+Print Assumptions C06_invariant_all_operations.
+
+Theorem C06_composite_history_in_domain : hist_dom_all empty_db ex_ops.
+Proof. exact composite_history_in_domain. Qed.
+Print Assumptions C06_composite_history_in_domain.
+
+Theorem C06_composite_history_not_in_single_tx_domain : ~ hist_dom empty_db ex_ops.
+Proof. exact composite_history_not_in_old_domain. Qed.
+Print Assumptions C06_composite_history_not_in_single_tx_domain.
